@@ -4,7 +4,7 @@ import os
 HERE = os.path.dirname(os.path.abspath(__file__))
 VARIANTS = ["IgnoreUnknownIdx", "UnlinkOnDeregister", "ResumeClearsBackoff", "IncBeforeSend", "NoClearOnLimit", "ResumeSkipsAcceptAll",
             "BackoffNeverReregisters", "RoundRobinStuck", "ConnErrIsFatal", "WakeSkipsAcceptAll", "PauseKeepsRegistered",
-            "RejoinPausedNoAvail", "ResetSeparate"]
+            "RejoinPausedNoAvail", "ResetSeparate", "JumpToFirstAvailable"]
 DESIGN = {"IgnoreUnknownIdx": "TRUE", "ResumeClearsBackoff": "TRUE"}
 INVS = ("TypeOK C01_Conservation C01_ServedOnce C01_NoSilentDrop C02_Bound C02_NoForcedSend C03_NoLostWake "
         "C04_RoundRobin C04_BitsTrueWhenCalm C05_ListenerLive C05_UdsReachable C05_ConnErrNoDelay C05_TimerHasTimeout C08_NoPanic "
@@ -39,6 +39,7 @@ cfg("MC_core_quick", 2, 2, 1, [], 4, edges=True)
 cfg("MC_core_l1", 2, 1, 1, [], 3, edges=True)
 cfg("MC_core_w1", 1, 1, 1, [], 3, edges=True)
 cfg("MC_core_2l", 2, 1, 2, [2], 3, edges=True)
+cfg("MC_core_w3l1", 3, 1, 1, [], 4, edges=True)   # three workers: the rotation skips a saturated one in the middle
 cfg("MC_core_w3", 3, 2, 1, [], 5)
 cfg("MC_core_l3", 2, 3, 1, [], 6)
 cfg("MC_core_l4", 1, 4, 1, [], 6)
@@ -85,6 +86,7 @@ cfg("NEG_ConnErrIsFatal", 1, 1, 1, [], 2, errs=1, flip=["ConnErrIsFatal"])
 cfg("NEG_WakeSkipsAcceptAll", 1, 1, 1, [], 2, flip=["WakeSkipsAcceptAll"], invs="C03_NoLostWake")
 cfg("NEG_PauseKeepsRegistered", 1, 1, 1, [], 2, cmds=2, flip=["PauseKeepsRegistered"])
 cfg("NEG_ResumeClearsBackoff", 1, 1, 1, [], 2, cmds=3, errs=1, flip=["ResumeClearsBackoff"], invs="", props="Steps")
-cfg("NEG_RejoinPausedNoAvail", 1, 1, 1, [], 2, cmds=2, faults=1, flip=["RejoinPausedNoAvail", "ResetSeparate"], invs="C03_NoLostWake C04_BitsTrueWhenCalm")
+cfg("NEG_RejoinPausedNoAvail", 1, 1, 1, [], 2, cmds=2, faults=1, flip=["RejoinPausedNoAvail", "ResetSeparate", "JumpToFirstAvailable"], invs="C03_NoLostWake C04_BitsTrueWhenCalm")
 cfg("NEG_ResetSeparate", 2, 1, 1, [], 4, flip=["ResetSeparate"], invs="C03_NoLostWake C04_BitsTrueWhenCalm")
+cfg("NEG_JumpToFirstAvailable", 3, 1, 1, [], 5, flip=["JumpToFirstAvailable"], invs="")
 print("configs written")
